@@ -59,6 +59,14 @@ def vx_list(relpath):
     return json.loads(p.stdout)
 
 
+def with_includes(text):
+    """`//@include <file>` lines of a prelude are replaced by lib/<file> (shared models)."""
+    def sub(m):
+        with open(os.path.join(VERIF, "lib", m.group(1))) as f:
+            return f.read()
+    return re.sub(r"^//@include (\S+)$", sub, text, flags=re.M)
+
+
 def const_items(relpath, skip=()):
     """Extraction requests for every module-level `const` of a source file (any module depth), so that code which starts
     using a new named constant is still analysed. Returns (items, [(modpath, key)])."""
@@ -386,6 +394,7 @@ class Unit:
         self.default_props = []
         self.trusted_notes = []
         self.modules = []  # modules holding extracted code (the vacuity run verifies only these)
+        self.helper_blocks = []  # (caller fn key, text): R28 helpers, spliced in front of the caller's impl block / fn
 
     def raw(self, text):
         self.parts.append(text if text.endswith("\n") else text + "\n")
@@ -424,7 +433,31 @@ class Unit:
         self.raw(f"// @item:{item['key']} src={item['file']}:{item['line_start']}-{item['line_end']}\n" + item["text"])
 
     def text(self):
-        return "".join(self.parts)
+        text = "".join(self.parts)
+        for caller, block in self.helper_blocks:
+            lines = text.split("\n")
+            at = None
+            for i, ln in enumerate(lines):
+                if ln.startswith(f"// @fn-begin:{caller} "):
+                    at = i
+                    break
+            if at is None:
+                raise ToolTrouble(f"helper placement: caller {caller} not found")
+            # the enclosing `impl .. {` of the caller, if it is still open at the caller
+            j = at - 1
+            while j >= 0:
+                st = lines[j].strip()
+                if re.match(r"^(pub\s+)?(mod|impl)\b.*\{$", st) or st.startswith("verus!"):
+                    break
+                j -= 1
+            if j >= 0 and lines[j].strip().startswith("impl"):
+                ind = len(lines[j]) - len(lines[j].lstrip())
+                closed = any(l.rstrip() == " " * ind + "}" for l in lines[j + 1:at])
+                if not closed:
+                    at = j
+            lines[at:at] = block.rstrip("\n").split("\n")
+            text = "\n".join(lines)
+        return text
 
 
 class Analysis:
